@@ -227,6 +227,8 @@ func TestHistoryChild(t *testing.T) {
 		cfg = c14Configs()[i]
 	case "c15":
 		cfg = c15Configs()[i]
+	case "c13":
+		cfg = c13Configs()[i]
 	}
 	r := cfg.search(t, depth, time.Unix(0, ns))
 	b, err := json.Marshal(r)
